@@ -1,3 +1,4 @@
+import os
 from vf.core import Property, Harness
 from .units_llc import LLC
 
@@ -5,18 +6,23 @@ from .units_llc import LLC
 def chan_cases(cfg):
     def f(tier):
         cs = []
-        def add(m, m2, nev): cs.append({'CFG': cfg, 'MAP': m, 'MAP2': m2, 'NEV': nev})
+        def add(m, m2, nev, extra=0): cs.append({'CFG': cfg, 'MAP': m, 'MAP2': m2, 'NEV': nev, 'EXTRA': extra})
         if tier == 'quick':
             if cfg == 0:
                 for m in range(1, 8): add(m, 0, 2)
-                for m, m2 in ((7, 5), (5, 2), (1, 6), (3, 4), (2, 7), (6, 1), (4, 3), (7, 7), (5, 5), (2, 2)): add(m, m2, 1)
+                for m, m2, e in ((7, 5, 1), (5, 2, 0), (1, 6, 0), (3, 4, 1), (2, 7, 0), (6, 1, 1), (4, 3, 0), (7, 7, 1), (7, 7, 2), (5, 5, 1), (2, 2, 0)): add(m, m2, 1, e)
             else:
                 for m in (2, 5, 7): add(m, 0, 2)
-                for m, m2 in ((7, 5), (5, 6), (6, 6)): add(m, m2, 1)
+                for m, m2, e in ((7, 5, 2), (5, 6, 1), (6, 6, 1)): add(m, m2, 1, e)
         else:
             for m in range(1, 8):
                 add(m, 0, 3)
-                for m2 in range(1, 8): add(m, m2, 2)
+                for m2 in range(1, 8):
+                    for e in range(0, bin(m).count('1')): add(m, m2, 2, e)
+        flt = os.environ.get('VF_C24_FILTER')          # debugging aid: "MAP=7,MAP2=7,EXTRA=1"
+        if flt:
+            want = dict(kv.split('=') for kv in flt.split(','))
+            cs = [c for c in cs if all(str(c.get(k)) == v for k, v in want.items())]
         return cs
     return f
 
@@ -34,7 +40,7 @@ def mk_chan(cfg):
                    description='advertising events driven through adv_timeout() for a concrete channel map (case split) with symbolic interval / perturbation '
                                'state / call order; stop, map change through the public functions, restart',
                    bounds='all 7 non-empty maps; 2 (quick) / 3 (thorough) complete events plus the first advertisement of the next; second phase: stop, '
-                          'change to a second map (quick: 7 pairs + 3 unchanged; thorough: all 49 pairs), restart, one complete event plus one advertisement; '
+                          '(after 0..2 further advertisements of the running event), change to a second map (quick: 7 pairs + 4 unchanged; thorough: all 49 pairs x every stop position), restart, one complete event plus one advertisement; '
                           'advertising interval 20..10240 ms symbolic (CFG 0) / 30 ms (CFG 1); perturbation state any 32 bit value')
 
 
